@@ -43,7 +43,33 @@ def host_suites(ctx, rnd, thorough, n_sample=None):
     t0 = time.time()
     c10.judge(ctx, "api-append-histories", c10.replay_histories(api_histories(rnd, thorough)), t0, own=c10.OWN[ctx.prop])
     t0 = time.time()
+    c10.judge(ctx, "append-to-disk-with-killed-entries", c10.replay_histories(hole_histories(rnd, thorough)), t0, own=c10.OWN[ctx.prop])
+    t0 = time.time()
     c10.judge(ctx, "overflow-conversions", c10.replay_histories(overflow_histories(rnd, thorough)), t0, own=c10.OWN[ctx.prop])
+
+
+def hole_histories(rnd, thorough):
+    """appends to an existing disk whose directory has killed entries before / between its files and whose chains lie anywhere (an image written by the
+    specification's writer, as Disk BASIC leaves it after KILL): every old file still lists, in order, and the new one after them"""
+    ins, hs = [], []
+    for k in range(24 if thorough else 8):
+        ids = [101, 102, 103][:rnd.choice([2, 3])]
+        files = [hostrun.stored_file(i) for i in ids]
+        free = list(range(68))
+        rnd.shuffle(free)
+        chains = [[free.pop()] for _ in files]
+        slots = sorted(rnd.sample(range(1, rnd.choice([len(ids) + 2, 8, 30]) + 1), len(ids)))
+        if slots == list(range(1, len(ids) + 1)):
+            slots[-1] += 2
+        ins.append({"id": k, "files": [ct.jfile(f) for f in files], "chains": chains, "slots": slots})
+        tool = rnd.choice(["asm", "util"])
+        cmd = {"tool": tool, "sw": "dsk", "app": True, "named": True, "new": [9] if tool == "asm" else [201], "srcn": 0 if tool == "asm" else 1}
+        lst = {"tool": "util", "sw": "list", "app": False, "named": True, "new": [], "srcn": 0}
+        hs.append({"init": {"kind": "dsk", "big": False, "files": ids}, "cmds": [lst, cmd, lst, dict(cmd), lst]})
+    imgs, _ = tlc.bulk("Gen_Disk", ins, cfg="Gen_Disk", nproc=4, min_chunk=4, heap="4g")
+    for k, h in enumerate(hs):
+        h["initbuf"] = ct.expand_sparse(imgs[k])
+    return hs
 
 
 def overflow_histories(rnd, thorough):
